@@ -19,7 +19,7 @@ from fractions import Fraction
 import numpy as np
 from common import *
 
-IMPORTS = "From CV Require Import Base.Cmp Model.C01_Cond.\nFrom Coq Require Import QArith."
+IMPORTS = "From CV Require Import Base.Cmp Model.C01_Cond.\nFrom Coq Require Import QArith Floats."
 RULE = ("random/structured model graphs (2-6 variables, 0-3 mutable variables per factor: value / None / 1-2-argument callable, shared "
         "hyper-parameters, several likelihoods per variable, pre-built likelihoods, cycles), every cell = graph shape x fixed/free "
         "partition x step style; per case several evaluation forms (keyword, positional, mixed, 4 malformed). distinct = distinct "
